@@ -72,7 +72,34 @@ def menu(kind):
 def noparam(kind, cls_name, n):
     from pyoma2 import algorithms as A
 
-    return getattr(A, cls_name)(name=n)
+    return getattr(A, cls_name.split("@")[0])(name=n)
+
+
+# Algorithms whose name ends in "@S" are built on ONE run-parameter object shared by the group (per setup): the
+# user-facing way of giving several algorithms the same settings. Their results must still equal the isolated runs;
+# their parameter objects are shared on purpose, so only results are compared for them.
+SHARE = {"SSIcov": "ssi", "SSIdat": "ssi", "EFDD": "efdd", "FSDD": "efdd", "SSIcov_MS": "ssi", "SSIdat_MS": "ssi"}
+SHARED_KW = {"ssi": dict(br=4, ordmax=6, hc=dict(NOHC)), "efdd": dict(nxseg=128)}
+
+
+def make(kind, name, shared):
+    from pyoma2 import algorithms as A
+
+    if name.endswith("@S"):
+        base = name[:-2]
+        cls = getattr(A, base)
+        grp = SHARE[base]
+        if grp not in shared:
+            kw = dict(SHARED_KW[grp])
+            if "hc" in kw:
+                kw["hc"] = dict(kw["hc"])
+            shared[grp] = cls.RunParamCls(**kw)
+        return cls(name=name, run_params=shared[grp])
+    return menu(kind)[name][0](name)
+
+
+def base_args(kind, name):
+    return menu(kind)[name.split("@")[0]][1]
 
 
 def build_setup(kind, seed):
@@ -86,6 +113,8 @@ def build_setup(kind, seed):
 
 
 def res_digest(alg):
+    if str(alg.name).endswith("@S"):
+        return canon.digest({"result": alg.result})
     return canon.digest({"result": alg.result, "params": alg.run_params})
 
 
@@ -102,7 +131,7 @@ _MPE_ARGS = {}
 def mpe_args(kind, name):
     """Extraction arguments. For pLSCF the order/frequency are chosen from the clean reference run (a parameter choice,
     not an oracle): the highest model order that holds a retained pole, and that pole's frequency."""
-    return _MPE_ARGS.get((kind, name)) or menu(kind)[name][1]
+    return _MPE_ARGS.get((kind, name)) or base_args(kind, name)
 
 
 def _reference_job(item):
@@ -112,8 +141,8 @@ def _reference_job(item):
     chosen = None
     for _ in range(2):
         ss, _u = build_setup(kind, seed)
-        mk, args = menu(kind)[name]
-        a = mk(name)
+        args = base_args(kind, name)
+        a = make(kind, name, {})
         ss.add_algorithms(a)
         d_added = res_digest(a)
         ss.run_by_name(name)
@@ -176,6 +205,7 @@ def run_history(kind, subset, events, hist, seed, scratch, judge_all=False):
     evs = [events[i] for i in hist]
     case = {"kind": kind, "subset": list(subset), "events": [list(e) for e in evs], "seed": seed}
     ss, user = build_setup(kind, seed)
+    shared = {}
     user_h = [canon.arr_digest(u) for u in user]
     d0 = data_digest(ss)
     # model: name -> ('added'|'ran'|'mpe'|'reran'), insertion-ordered; NOPAR -> 'added'
@@ -194,7 +224,7 @@ def run_history(kind, subset, events, hist, seed, scratch, judge_all=False):
         exc = None
         try:
             if ev[0] == "add":
-                a = noparam(kind, nop_cls, "NOPAR") if ev[1] == "NOPAR" else menu(kind)[ev[1]][0](ev[1])
+                a = noparam(kind, nop_cls, "NOPAR") if ev[1] == "NOPAR" else make(kind, ev[1], shared)
                 ss.add_algorithms(a)
             elif ev[0] == "run":
                 ss.run_by_name(ev[1])
@@ -325,9 +355,9 @@ def run_decoy(kind, subset, seed):
         other = SingleSetup(make_record(seed + 1000, "decoy"), FS)
     else:
         other = MultiSetup_PreGER(fs=FS, ref_ind=[[0, 1], [0, 1]], datasets=[make_record(seed + 1000, "d0", 3), make_record(seed + 1000, "d1", 3)])
+    sh = {}
     for n in subset:
-        mk, args = menu(kind)[n]
-        other.add_algorithms(mk(n))
+        other.add_algorithms(make(kind, n, sh))
     other.run_all()
     for n in subset:
         try:
@@ -492,10 +522,13 @@ def explore(ctx):
         if ctx.thorough:
             plan = [("single", s) for s in itertools.combinations(single_menu, 3)]
             plan += [("single", ("pLSCF", "SSIcov", "FDD")), ("single", ("SSIdat", "EFDD", "FSDD"))]   # other insertion orders
+            plan += [("single", ("SSIdat@S", "SSIcov@S", "EFDD")), ("single", ("EFDD@S", "FSDD@S", "SSIcov")),
+                     ("preger", ("SSIdat_MS@S", "SSIcov_MS@S", "FDD_MS"))]
             plan += [("preger", s) for s in itertools.combinations(ms_menu, 3)]
             depth, ud = 8, 3
         else:
             plan = [("single", ("FDD", "SSIcov", "pLSCF")), ("single", ("EFDD", "SSIdat", "FSDD")),
+                    ("single", ("SSIdat@S", "SSIcov@S", "EFDD")),
                     ("preger", ("FDD_MS", "SSIcov_MS", "pLSCF_MS")), ("preger", ("EFDD_MS", "SSIdat_MS", "FDD_MS"))]
             depth, ud = 6, 2
         ctx.bounds = {"plan": [[k, list(s)] for k, s in plan], "merged_bfs_depth": depth, "unmerged_depth": ud,
